@@ -43,6 +43,13 @@ def cmdIndex (ws : List String) : Option String :=
       pure (mStr toString ((WrappingIndex.mk i j).resolveUncheckedH h (r * c)))
     else
       pure (accessStr acc ((WrappingIndex.mk i j).resolveH h (r * c)) true)
+  | ["whook", o, r, c, i, j] => do
+    let o ← parseOrder o; let r ← r.toNat?; let c ← c.toNat?; let i ← parseInt i; let j ← parseInt j
+    pure (mStr (fun (a : AxisIndex) => s!"{a.major} {a.minor}")
+      (Gen.AxisIndex.from_wrapping_index ⟨i, j⟩ o ((Shape.mk r c).toAxis o)))
+  | ["wzget", o, r, c, i, j] => do
+    let o ← parseOrder o; let r ← r.toNat?; let c ← c.toNat?; let i ← parseInt i; let j ← parseInt j
+    pure (accessStr "get" ((WrappingIndex.mk i j).resolveH (hdrOf o r c) (r * c)) false)
   | _ => none
 
 end Driver
